@@ -1,10 +1,18 @@
 import PwVerif.Model.FuncWrap
+import PwVerif.Model.PyAst
+import PwVerif.Model.Kinds
 import PwVerif.Model.Proto
-open PwVerif PwVerif.FuncWrap PwVerif.Proto
+open PwVerif PwVerif.FuncWrap PwVerif.PyAst PwVerif.Kinds PwVerif.Proto
 
 /-! Line-protocol driver for the FuncWrap model (C17).
 
-    cfg <recast 0|1> <cachedPanel 0|1> <dictByHash 0|1> <dcByName 0|1>
+    cfg <recast 0|1> <cachedPanel 0|1> <dictByHash 0|1> <dcByName 0|1> <walkNested 0|1> <byteCols 0|1>
+        <variadicByName 0|1> <posOnlyByKeyword 0|1>
+    srcline <code points of one line of the dedented source, comma separated | ->     (appends a source line)
+    stmt <depth> leaf | inner0 | inner1 | retbare | retother <l0> <c0> <l1> <c1> | rettuple (<l0> <c0> <l1> <c1>)*
+                                 (the statement tree of the function body as python's `ast` gives it, in pre-order;
+                                 inner1 = nested def / async def / class; when present, `show` reads the return
+                                 statements off this tree and the source lines instead of the retstmt lines)
     regkey <class name> <defining object>   (the next `def dict` / `def dc` goes through the class registry: the name
                                  the factory derives — hash of the specification, `__name__` of the dataclass — and
                                  a number standing for the defining object itself)
@@ -13,7 +21,7 @@ open PwVerif PwVerif.FuncWrap PwVerif.Proto
                                  I<i>:<k> (free term i if parameter k `is` its default object, else term i+50) |
                                  T:<ret>,<ret>,… (ONE returned object that is a tuple): what the body computes
     values: ND | atom | @<id>.<kind> (an object with identity <id>) | tag(v,…) | tag(k=v,…)
-    param <name> <default|-> <annotation: - | None | hint>     (appends a parameter)
+    param <name> <default|-> <annotation: - | None | hint> [po|pk|vp|ko|vk]     (appends a parameter; kind, default pk)
     retstmt bare | retstmt single <text…> | retstmt tuple      (appends a `return` statement as ast sees it)
     retelt <text…>                                             (appends an element text to the last tuple)
     retann - | None | <hint> <get_args hint>*
@@ -131,7 +139,36 @@ structure Made where
   pv : Preview
   proto : Node
 
+/-- one statement of the pre-order stream -/
+inductive STok where
+  | leaf
+  | ret (v : Option RetVal)
+  | inner (scope : Bool)
+
+/-- the siblings at depth `d` from the front of the stream, and what is left -/
+partial def buildStmts (d : Nat) : List (Nat × STok) → List PStmt × List (Nat × STok)
+  | [] => ([], [])
+  | (d', t) :: rest =>
+    if d' != d then ([], (d', t) :: rest)
+    else match t with
+      | .leaf => let (sibs, r) := buildStmts d rest; (.leaf :: sibs, r)
+      | .ret v => let (sibs, r) := buildStmts d rest; (.ret v :: sibs, r)
+      | .inner sc =>
+        let (kids, r1) := buildStmts (d + 1) rest
+        let (sibs, r2) := buildStmts d r1
+        (.inner sc kids :: sibs, r2)
+
+def spansOf : List Nat → Option (List Span)
+  | [] => some []
+  | a :: b :: c :: d :: r => (spansOf r).map (⟨a, b, c, d⟩ :: ·)
+  | _ => none
+
 structure St where
+  src : List (List Char) := []
+  stmts : List (Nat × STok) := []
+  kinds : List PKind := []
+  scfg : ScrapeCfg := ScrapeCfg.pinned
+  kcfg : KindCfg := KindCfg.pinned
   reg : List (RegEntry Made) := []
   key : Option (String × Nat) := none
   cfg : Cfg := Cfg.pinned
@@ -182,6 +219,7 @@ def showDefErr : DefErr → String
   | .countMismatch => "countMismatch"
   | .presence => "presence"
   | .hintCount => "hintCount"
+  | .variadic => "variadic"
 
 def parseHint (w : String) : Hint := if w == "-" then none else some w
 
@@ -191,6 +229,7 @@ def showOutcome (n : Node) : Outcome → String
   | .readiness => s!"call Readiness ins={showPanel n.ins}"
   | .notIterable => s!"call NotIterable ins={showPanel n.ins}"
   | .runError => s!"call RunError outs={showVals n.outs} ins={showPanel n.ins}"
+  | .typeError => s!"call TypeError ins={showPanel n.ins}"
 
 def parseField (w : String) : Option (Field × Hint) :=
   match w.splitOn ":" with
@@ -229,11 +268,39 @@ def init : St := {}
 
 def step (s : St) (ws : List String) : St × List String :=
   match ws with
-  | ["cfg", a, b, c, d] =>
+  | "cfg" :: flags =>
     let bit (w : String) : Option Bool := if w == "1" then some true else if w == "0" then some false else none
-    match bit a, bit b, bit c, bit d with
-    | some a, some b, some c, some d => ({ s with cfg := ⟨a, b, c, d⟩ }, [])
-    | _, _, _, _ => (s, ["bad-op"])
+    match flags.mapM bit with
+    | some [a, b, c, d, e, f, g, h] =>
+      ({ s with cfg := ⟨a, b, c, d⟩, scfg := ⟨e, f⟩, kcfg := ⟨g, h⟩ }, [])
+    | _ => (s, ["bad-op"])
+  | ["srcline", cps] =>
+    match s.kind with
+    | .fn _ _ =>
+      if cps == "-" then ({ s with src := s.src ++ [[]] }, [])
+      else match (cps.splitOn ",").mapM String.toNat? with
+        | some ns => ({ s with src := s.src ++ [ns.map Char.ofNat] }, [])
+        | none => (s, ["bad-op"])
+    | _ => (s, ["bad-op"])
+  | "stmt" :: depth :: what =>
+    match s.kind, depth.toNat? with
+    | .fn _ _, some d =>
+      let tok : Option STok :=
+        match what with
+        | ["leaf"] => some .leaf
+        | ["inner0"] => some (.inner false)
+        | ["inner1"] => some (.inner true)
+        | ["retbare"] => some (.ret none)
+        | "retother" :: ns =>
+          match ns.mapM String.toNat? with
+          | some [a, b, c, e] => some (.ret (some (.other ⟨a, b, c, e⟩)))
+          | _ => none
+        | "rettuple" :: ns => (ns.mapM String.toNat?).bind spansOf |>.map fun sps => .ret (some (.tuple sps))
+        | _ => none
+      match tok with
+      | some t => ({ s with stmts := s.stmts ++ [(d, t)] }, [])
+      | none => (s, ["bad-op"])
+    | _, _ => (s, ["bad-op"])
   | ["regkey", name, ident] =>
     match ident.toNat? with
     | some i => ({ s with key := some (name, i) }, [])
@@ -244,17 +311,29 @@ def step (s : St) (ws : List String) : St × List String :=
     | some v, some rets =>
       let declared := if decl == "-" then none else some (decl.splitOn ",")
       ({ s with kind := .fn { params := [], rets := [], declared := declared, validate := v, retAnn := .empty } rets,
+                src := [], stmts := [], kinds := [],
                 pv := none, proto := none, node := none, ranOk := false }, [])
     | _, _ => (s, ["bad-op"])
-  | ["param", name, d, a] =>
-    match s.kind with
-    | .fn fd rets =>
+  | "param" :: name :: d :: a :: kd =>
+    let kind : Option PKind :=
+      match kd with
+      | [] => some .posOrKw
+      | ["pk"] => some .posOrKw
+      | ["po"] => some .posOnly
+      | ["vp"] => some .varPos
+      | ["ko"] => some .kwOnly
+      | ["vk"] => some .varKw
+      | _ => none
+    match s.kind, kind with
+    | .fn fd rets, some k =>
       let ann : Ann := if a == "-" then .empty else if a == "None" then .none_ else .obj a
-      if d == "-" then ({ s with kind := .fn { fd with params := fd.params ++ [⟨name, ann, none⟩] } rets }, [])
+      if d == "-" then
+        ({ s with kinds := s.kinds ++ [k], kind := .fn { fd with params := fd.params ++ [⟨name, ann, none⟩] } rets }, [])
       else match parseValS d with
-        | some v => ({ s with kind := .fn { fd with params := fd.params ++ [⟨name, ann, some v⟩] } rets }, [])
+        | some v =>
+          ({ s with kinds := s.kinds ++ [k], kind := .fn { fd with params := fd.params ++ [⟨name, ann, some v⟩] } rets }, [])
         | none => (s, ["bad-op"])
-    | _ => (s, ["bad-op"])
+    | _, _ => (s, ["bad-op"])
   | "retstmt" :: what =>
     match s.kind, what with
     | .fn fd rets, ["bare"] => ({ s with kind := .fn { fd with rets := fd.rets ++ [.bare] } rets }, [])
@@ -283,7 +362,16 @@ def step (s : St) (ws : List String) : St × List String :=
     | _ => (s, ["bad-op"])
   | ["show"] =>
     match s.kind with
-    | .fn fd _ =>
+    | .fn fd0 rets =>
+      -- the return statements: read off the statement tree and the source lines when these were given
+      let built := buildStmts 0 s.stmts
+      if !built.2.isEmpty then (s, ["bad-op"]) else
+      let fd : FnDef := if s.stmts.isEmpty then fd0 else { fd0 with rets := retStmts s.scfg s.src built.1 }
+      let kps : List KParam := (fd.params.zip s.kinds).map fun (p, k) => ⟨p.name, k, p.dflt⟩
+      let s := { s with kind := .fn fd rets }
+      match previewKinds s.kcfg kps with
+      | .error e => ({ s with pv := none, proto := none, node := none, ranOk := false }, [s!"def err {showDefErr e}"])
+      | .ok _ =>
       match fnPreview fd with
       | .ok pv => ({ s with pv := some pv, proto := some (setupNode pv.1 pv.2), node := none, ranOk := false },
           [s!"def ok {showPreview pv}"])
@@ -331,7 +419,9 @@ def step (s : St) (ws : List String) : St × List String :=
     | some n, some (a, k) =>
       let r : Node × Outcome :=
         match s.kind with
-        | .fn fd rets => call (body (fd.params.map (·.dflt)) rets) n a k
+        | .fn fd rets =>
+          callK s.kcfg (body (fd.params.map (·.dflt)) rets)
+            ((fd.params.zip s.kinds).map fun (p, kd) => ⟨p.name, kd, p.dflt⟩) n a k
         | .xf kd => xfCall kd n a k
         | .unpack => unpackCall n a k
         | .dc => dcCall n a k
